@@ -7,7 +7,10 @@ use rand::SeedableRng;
 use serde_json::Value;
 
 mod c01;
+mod c06;
+mod c07;
 mod c18;
+pub mod expand;
 
 /// Writes events (with outcomes) into shards of bounded size; every shard starts with the cfg event.
 pub struct Tracer {
@@ -72,6 +75,8 @@ pub fn drive(prop: &str, tier: &str, seed: u64, outdir: &str) -> u64 {
     let mut tr = Tracer::new(outdir, &format!("drv-{}", prop), 4000);
     match prop {
         "C01" => c01::drive(&mut tr, &mut rng, thorough),
+        "C06" => c06::drive(&mut tr, &mut rng, thorough),
+        "C07" => c07::drive(&mut tr, &mut rng, thorough),
         "C18" => c18::drive(&mut tr, &mut rng, thorough),
         _ => panic!("no driver for {}", prop),
     }
